@@ -187,6 +187,50 @@ def check_title(title, out, stats):
         stats["title-" + problems[0].split(" ")[0]] = stats.get("title-" + problems[0].split(" ")[0], 0) + 1
 
 
+def object_attribute_names():
+    """every attribute an `Object` instance or class already has, plus the per-instance slots `dir(object)` does not list"""
+    from statham.schema.elements import Object
+    from statham.schema.elements.meta import ObjectMeta
+    return sorted(set(dir(Object)) | set(dir(ObjectMeta)) | {"__dict__", "__weakref__", "__slots__", "__qualname__", "__annotations__", "__module__"})
+
+
+def check_usable(name, out, stats):
+    """'usable': a model declared with a property of this JSON name can be built from data carrying the name, the
+    value is read back under the mapped attribute, and a wrong value is refused with the validation error"""
+    from statham.schema.exceptions import ValidationError
+    from statham.schema.parser import parse_element
+    case = {"usable": name}
+    out.note_case(case, True)
+    try:
+        cls = parse_element({"type": "object", "title": "Probe", "properties": {name: {"type": "integer"}}})
+        attr = list(cls.properties)[0]
+    except Exception as exc:  # noqa: BLE001
+        out.failures.append({"case": case, "what": f"declaring a property named {name!r} raised {type(exc).__name__}: {exc}", "finding": None})
+        return
+    try:
+        inst = cls({name: 1})
+        got = getattr(inst, attr)
+        item = inst[attr]
+    except Exception as exc:  # noqa: BLE001
+        out.failures.append({"case": case, "what": f"property {name!r} (attribute {attr!r}): building / reading the model raised {type(exc).__name__}: {exc}", "finding": None})
+        return
+    if got != 1 or item != 1 or type(got) is not int:
+        # the empty JSON name loses its source (listed region C12-empty-name): the value then never arrives
+        out.failures.append({"case": case, "what": f"property {name!r} (attribute {attr!r}) reads back {got!r} / {item!r} instead of 1",
+                             "finding": "C12-empty-name" if name == "" else None})
+        return
+    try:
+        cls({name: "x"})
+        out.failures.append({"case": case, "what": f"property {name!r}: a string was accepted for an integer property", "finding": None})
+        return
+    except ValidationError:
+        pass
+    except Exception as exc:  # noqa: BLE001
+        out.failures.append({"case": case, "what": f"property {name!r}: a wrong value raised {type(exc).__name__} instead of the validation error", "finding": None})
+        return
+    stats["usable-ok"] = stats.get("usable-ok", 0) + 1
+
+
 def check_shared_object(names, out, stats):
     """one object schema *dict* reached twice in one parse (from a property and from `definitions`, as resolving a
     `$ref` produces): its properties keep their JSON names, and it is one class"""
@@ -260,6 +304,9 @@ def run(ctx, scale=1.0):
             check_shared_object(rng.sample(hostile, rng.choice([1, 2, 3])), out, stats)
         check_siblings(["a b", "a_b"], out, stats)
         check_siblings(["", "blank"], out, stats)
+        # every name an Object already has as an attribute, and a sample of ordinary ones, must be usable as a property
+        for n in object_attribute_names() + sorted(OWN_RESERVED) + rng.sample(WORDS, min(len(WORDS), 20)):
+            check_usable(n, out, stats)
         from harness.gen import SchemaGen
         sg = SchemaGen(rng)
         for _ in range(int(400 * scale)):
@@ -306,6 +353,8 @@ def replay_finding(finding):
         check_siblings(w["names"], out, stats)
     elif "title" in w:
         check_title(w["title"], out, stats)
+    elif "usable" in w:
+        check_usable(w["usable"], out, stats)
     else:
         return bool(attr_problems(w["name"], _parse_attribute_name(w["name"])))
     return bool(out.failures)
